@@ -29,6 +29,20 @@ KMin(tmin, dt, q) == IF FLt(TargetDt(tmin, dt, q), dt) THEN FCeil(FMul(FDiv(dt, 
 \* record refined k times, optionally followed by k-1 copies of the last value (a clamped tail of < 1 step)
 WithTail(a, k, tail) == IF tail /\ k > 1 THEN Refined(a, k) \o [j \in 1..(k - 1) |-> a[Len(a)]] ELSE Refined(a, k)
 
+\* ---- what an AccSignal reports for one period T > 0 of its period list (shortest non-zero period tmin, damping xi,
+\* min_dt_ratio q): the spectra of the record refined by SOME whole k in [k_min, 2 k_min + 2], with or without the clamped
+\* tail; S_a is the PGA below six (refined) steps and w^2 S_d otherwise.  Shared by Trace_Spectra and the object models.
+RelNear(x, y, rel) == CloseRel(x, y, rel, FAbs(y), FStr("1e-300"))
+ObjectSpectrumOK(a, dt, xi, q, tmin, T, sd, sa) ==
+  LET w == FDiv(TwoPi, T)  pga == FMaxAbs(a)  kmin == KMin(tmin, dt, q)
+      match(k, tail) ==
+        LET dtk == FDiv(dt, FInt(k))  rec == WithTail(a, k, tail)
+            pu == Peaks3(Flow(T, xi, dtk), rec).pu
+            tu == AbsTol(T, dtk, Len(rec), pu, FDiv(pga, FSq(w)))
+        IN /\ Close(sd, pu, tu)
+           /\ (IF FLt(T, FMul(FInt(6), dtk)) THEN FEq(sa, pga) ELSE RelNear(sa, FMul(FSq(w), sd), FStr("1e-12")))
+  IN \E k \in kmin..(2 * kmin + 2) : match(k, TRUE) \/ match(k, FALSE)
+
 \* energy spectra over a velocity series v (response to a at step dt)
 InputEnergy(a, v, dt) == FSum([i \in 1..Len(a) |-> FMul(FMul(a[i], v[i]), dt)])
 KineticEnergy(v) == FSum([i \in 1..(Len(v) - 1) |-> FAbs(FSub(FMul(Half, FSq(v[i + 1])), FMul(Half, FSq(v[i]))))])
